@@ -158,11 +158,7 @@ func (t *Translator) convertSingleMessage(msg AnthropicMessage) ([]map[string]in
 
 	// user msgs can have text + tool results, assistant msgs have text + tool uses
 	if msg.Role == "user" {
-		userMsg, toolMsgs := t.convertUserMessage(contentBlocks)
-		if userMsg != nil {
-			result = append(result, userMsg)
-		}
-		result = append(result, toolMsgs...)
+		result = append(result, t.convertUserMessage(contentBlocks)...)
 	} else if msg.Role == "assistant" {
 		assistantMsg := t.convertAssistantMessage(contentBlocks)
 		if assistantMsg != nil {
@@ -173,10 +169,23 @@ func (t *Translator) convertSingleMessage(msg AnthropicMessage) ([]map[string]in
 	return result, nil
 }
 
-// split user message into text + tool results (openai needs tool results as separate messages)
-func (t *Translator) convertUserMessage(blocks []interface{}) (map[string]interface{}, []map[string]interface{}) {
+// split user message into text + tool results (openai needs tool results as separate messages).
+// The messages come out in the order the client gave the blocks: tool results that precede the
+// user's text (the order the Messages API itself mandates after a tool_use turn) must also precede
+// it upstream, directly after the assistant's tool_calls message.
+func (t *Translator) convertUserMessage(blocks []interface{}) []map[string]interface{} {
 	var textParts []string
-	var toolResults []map[string]interface{}
+	var messages []map[string]interface{}
+
+	flushText := func() {
+		if len(textParts) > 0 {
+			messages = append(messages, map[string]interface{}{
+				"role":    "user",
+				"content": strings.Join(textParts, ""),
+			})
+			textParts = nil
+		}
+	}
 
 	for _, block := range blocks {
 		blockMap, ok := block.(map[string]interface{})
@@ -204,7 +213,8 @@ func (t *Translator) convertUserMessage(blocks []interface{}) (map[string]interf
 				}
 			}
 
-			toolResults = append(toolResults, map[string]interface{}{
+			flushText()
+			messages = append(messages, map[string]interface{}{
 				"role":         "tool",
 				"tool_call_id": toolUseID,
 				"content":      content,
@@ -215,15 +225,8 @@ func (t *Translator) convertUserMessage(blocks []interface{}) (map[string]interf
 		}
 	}
 
-	var userMsg map[string]interface{}
-	if len(textParts) > 0 {
-		userMsg = map[string]interface{}{
-			"role":    "user",
-			"content": strings.Join(textParts, ""),
-		}
-	}
-
-	return userMsg, toolResults
+	flushText()
+	return messages
 }
 
 // combine text + tool uses into single openai message
